@@ -26,8 +26,10 @@ import (
 	"strconv"
 	"strings"
 	"sync/atomic"
+	"text/template"
 	"time"
 
+	"github.com/Masterminds/sprig"
 	"github.com/go-faster/city"
 	"github.com/kr/logfmt"
 	"github.com/metrico/qryn/reader/logql/logql_parser"
@@ -131,8 +133,13 @@ type ParseRow struct {
 type TmplRow struct {
 	ID     int               `json:"id"`
 	Labels map[string]string `json:"labels"`
-	Ok     bool              `json:"ok"`
-	S      string            `json:"s"`
+	// Ok / S: what text/template itself renders (refRender: the library called by the harness, NOT the stage under test)
+	Ok bool   `json:"ok"`
+	S  string `json:"s"`
+	// StageOk / StageS: what a fresh instance of the real stage does with the single entry (compared with Ok / S by the check)
+	StageOk bool   `json:"stage_ok"`
+	StageS  string `json:"stage_s"`
+	Tmpl    string `json:"tmpl"`
 }
 
 type Case struct {
@@ -963,20 +970,75 @@ func buildTables(c *Case, ins [][]Entry) {
 					continue
 				}
 				seenTmpl[k] = true
-				// render through a fresh instance of the real stage on this one entry (no error marker: the
-				// stage does not look at it); an entry that comes back was rendered, a missing one was dropped
+				// the oracle row is what text/template + the documented function set render (refRender: the library called
+				// from here); a fresh instance of the real stage on this one entry is recorded next to it (no error marker:
+				// the stage does not look at it; an entry that comes back was rendered, a missing one was dropped) and the
+				// check requires the two to agree: a table filled by the stage could not detect the stage's own corruption
+				row := TmplRow{ID: i, Labels: l, Tmpl: st.Tmpl}
+				row.S, row.Ok = refRender(st.Tmpl, e.Labels, hx.UnHex(e.Msg))
 				res, perr := single(func(up shared.RequestProcessor) shared.RequestProcessor {
 					return &ip.LineFormatterPlanner{GenericPlanner: ip.GenericPlanner{Main: up}, Template: st.Tmpl}
 				}, Entry{Labels: cloneMapNN(e.Labels), Msg: e.Msg})
-				row := TmplRow{ID: i, Labels: l}
 				if perr == nil && len(res) == 1 {
-					row.Ok = true
-					row.S = res[0].Msg
+					row.StageOk = true
+					row.StageS = res[0].Msg
 				}
 				c.Tab.Tmpl = append(c.Tab.Tmpl, row)
 			}
 		}
 	}
+}
+
+// ---------------------------------------------------------------------------------- template oracle
+
+// refFuncs: the function set of `| line_format` as LogQL documents it, bound HERE to the libraries (strings, regexp, sprig):
+// the stage's own functionMap is code under test and is not consulted
+var refFuncs = func() template.FuncMap {
+	res := template.FuncMap{
+		"ToLower": strings.ToLower, "ToUpper": strings.ToUpper, "Replace": strings.Replace, "Trim": strings.Trim,
+		"TrimLeft": strings.TrimLeft, "TrimRight": strings.TrimRight, "TrimPrefix": strings.TrimPrefix,
+		"TrimSuffix": strings.TrimSuffix, "TrimSpace": strings.TrimSpace,
+		"regexReplaceAll": func(re string, s string, repl string) string {
+			return regexp.MustCompile(re).ReplaceAllString(s, repl)
+		},
+		"regexReplaceAllLiteral": func(re string, s string, repl string) string {
+			return regexp.MustCompile(re).ReplaceAllLiteralString(s, repl)
+		},
+	}
+	sp := sprig.GenericFuncMap()
+	for _, n := range []string{"lower", "upper", "title", "trunc", "substr", "contains", "hasPrefix", "hasSuffix", "indent", "nindent",
+		"replace", "repeat", "trim", "trimAll", "trimSuffix", "trimPrefix", "int", "float64", "add", "sub", "mul", "div", "mod", "addf",
+		"subf", "mulf", "divf", "max", "min", "maxf", "minf", "ceil", "floor", "round", "fromJson", "date", "toDate", "now", "unixEpoch"} {
+		if f, ok := sp[n]; ok {
+			res[n] = f
+		}
+	}
+	return res
+}()
+
+// refRender: the line `| line_format tmpl` defines for an entry: the template executed by text/template over the labels plus
+// `_entry` = the line, a missing label reading as ""; ok = false when the template does not parse or its execution fails
+// (the stage then drops the entry)
+func refRender(tmpl string, labels map[string]string, line string) (out string, ok bool) {
+	defer func() {
+		if recover() != nil {
+			out, ok = "", false
+		}
+	}()
+	tpl, err := template.New("ref").Option("missingkey=zero").Funcs(refFuncs).Parse(tmpl)
+	if err != nil {
+		return "", false
+	}
+	data := map[string]string{}
+	for k, v := range labels {
+		data[k] = v
+	}
+	data["_entry"] = line
+	var buf bytes.Buffer
+	if err := tpl.Execute(&buf, data); err != nil {
+		return "", false
+	}
+	return hx.Hex(buf.String()), true
 }
 
 // ---------------------------------------------------------------------------------- fingerprint structure cases
@@ -1146,9 +1208,9 @@ func genLabelFilter(r *rand.Rand, depth int) string {
 		case 1:
 			return k + "!=" + strconv.Quote(pick(r, valPool))
 		case 2:
-			return k + "=~" + strconv.Quote(pick(r, []string{"b.*", "^(error|warn)$", "[0-9]+", ".*", "^$", "x"}))
+			return k + "=~" + strconv.Quote(pick(r, []string{"b.*", "^(error|warn)$", "[0-9]+", ".*", "^$", "x", "^b$", "\\Aerror\\z"}))
 		case 3:
-			return k + "!~" + strconv.Quote(pick(r, []string{"b.*", "err", "[0-9]+", ".+"}))
+			return k + "!~" + strconv.Quote(pick(r, []string{"b.*", "err", "[0-9]+", ".+", "^b$", "^info$"}))
 		case 4:
 			return k + " > " + pick(r, []string{"1", "2", "0", "2.5", "10"})
 		case 5:
@@ -1174,7 +1236,40 @@ func genLabelFilter(r *rand.Rand, depth int) string {
 var templates = []string{
 	`{{.level}} {{.msg}}`, `{{._entry}}`, `x`, `{{ToUpper .level}}-{{.n}}`, `{{.a}}{{.ab}}`,
 	`{{if .level}}L={{.level}}{{else}}none{{end}}`, `{{.n | int | add 1}}`, `{{index . "x_y"}}`,
-	`{{.level.foo}}`, `{{div 1 (int .n)}}`, `{{._entry | lower}}`,
+	`{{.level.foo}}`, `{{div 1 (int .n)}}`, `{{._entry | lower}}`, `{{.level}}`,
+}
+
+// anchored literal patterns: the forms of a regular-expression line filter whose text is a literal between anchors (Go's
+// regexp.LiteralPrefix reports "complete" for ^L$ and \AL\z: a fast path built on it forgets the anchors), next to the forms
+// anchored at one end, with flags, in a group and in an alternation
+func anchoredPattern(r *rand.Rand, lit string) string {
+	q := regexp.QuoteMeta(lit)
+	switch r.Intn(12) {
+	case 0, 1, 2:
+		return "^" + q + "$"
+	case 3, 4:
+		return "\\A" + q + "\\z"
+	case 5:
+		return "^" + q
+	case 6:
+		return q + "$"
+	case 7:
+		return "^" + q + "\\z"
+	case 8:
+		return "^(?:" + q + ")$"
+	case 9:
+		return "(?i)^" + strings.ToUpper(q) + "$"
+	case 10:
+		return "(?m)^" + q + "$"
+	default:
+		return "^" + q + "$|^zzz$"
+	}
+}
+
+// anchoredWords: lines around the literal: equal to it, containing it at the start / at the end / inside, twice, on the first or
+// last line of a multi-line text, in another case, and unrelated ones
+func anchoredWords(lit string) []string {
+	return []string{lit, lit, lit + "s", "no" + lit, "t" + lit + "_x", lit + " " + lit, lit + "\nwarn", "warn\n" + lit, strings.ToUpper(lit), "", "warn", "zzz"}
 }
 
 func genStage(r *rand.Rand, gp *genPlan) string {
@@ -1184,9 +1279,9 @@ func genStage(r *rand.Rand, gp *genPlan) string {
 	case 1:
 		return " != " + strconv.Quote(pick(r, []string{"a", "error", "x y", "zzz"}))
 	case 2:
-		return " |~ " + strconv.Quote(pick(r, []string{"err.r", "[0-9]+", "^\\{", "b|c", ""}))
+		return " |~ " + strconv.Quote(pick(r, []string{"err.r", "[0-9]+", "^\\{", "b|c", "", "^error$", "error$", "^b$", "\\Ainfo\\z"}))
 	case 3:
-		return " !~ " + strconv.Quote(pick(r, []string{"err.r", "[0-9]{2}", "info$"}))
+		return " !~ " + strconv.Quote(pick(r, []string{"err.r", "[0-9]{2}", "info$", "^info$", "\\Aerror\\z", "^b"}))
 	case 4, 5, 6:
 		return " | " + genLabelFilter(r, 2)
 	case 7:
@@ -1346,6 +1441,14 @@ func genCase(r *rand.Rand, id int, pl *pools) Case {
 			gp.parserFn = "line_format"
 		}
 	}
+	// "anchored": a regular-expression line filter whose pattern is a literal between anchors, run in process on lines that
+	// equal the literal and on lines that only contain it (the line is the extracted level through line_format, the raw
+	// message through line_format "{{._entry}}", or the undecoded json / logfmt text)
+	anch := !collapse && r.Intn(9) == 0
+	anchLit, anchRaw := "", false
+	if anch {
+		anchLit = pick(r, []string{"error", "info", "b"})
+	}
 	sel := `{app="x"}`
 	var pre string
 	if r.Intn(4) == 0 {
@@ -1359,9 +1462,19 @@ func genCase(r *rand.Rand, id int, pl *pools) Case {
 		bp = " | logfmt"
 	default:
 		bp = " | line_format " + strconv.Quote(pick(r, templates[:6]))
+		if anch {
+			bp, anchRaw = " | line_format "+strconv.Quote("{{._entry}}"), true
+		}
 	}
 	pipe := pre + bp
 	ns := r.Intn(4)
+	if anch {
+		if !anchRaw && r.Intn(4) != 0 {
+			pipe += " | line_format " + strconv.Quote("{{.level}}")
+		}
+		pipe += pick(r, []string{" |~ ", " |~ ", " !~ "}) + strconv.Quote(anchoredPattern(r, anchLit))
+		ns = r.Intn(2)
+	}
 	if collapse {
 		ns = 0
 		if collapseLF {
@@ -1462,6 +1575,9 @@ func genCase(r *rand.Rand, id int, pl *pools) Case {
 	} else {
 		c.Query = sel + pipe
 	}
+	if anch {
+		c.Class += "+anchored"
+	}
 	// context, aligned the way FixPeriodPlanner leaves it for matrix requests
 	dur := durS * 1e9
 	base := int64(1700000000) * 1e9
@@ -1536,6 +1652,29 @@ func genCase(r *rand.Rand, id int, pl *pools) Case {
 				msg = uw + "=" + v + pick(r, []string{"", " level=info", " msg=b"})
 			} else {
 				msg = "{" + jsonStr(uw) + ":" + pick(r, []string{v, jsonStr(v)}) + pick(r, []string{"", ",\"level\":\"info\"", ",\"msg\":\"b\""}) + "}"
+			}
+		}
+		if anch && r.Intn(6) != 0 {
+			w := pick(r, anchoredWords(anchLit))
+			uv := pick(r, []string{"0", "1", "2", "2.5"})
+			switch {
+			case anchRaw:
+				msg = w
+			case gp.parserFn == "json":
+				msg = "{" + jsonStr("level") + ":" + jsonStr(w)
+				if uw == "n" || uw == "dur" {
+					msg += "," + jsonStr(uw) + ":" + uv
+				}
+				msg += pick(r, []string{"", "", ",\"msg\":\"b\""}) + "}"
+			default:
+				if w == "" || strings.ContainsAny(w, " \n") {
+					w = strconv.Quote(w)
+				}
+				msg = "level=" + w
+				if uw == "n" || uw == "dur" {
+					msg += " " + uw + "=" + uv
+				}
+				msg += pick(r, []string{"", "", " msg=b"})
 			}
 		}
 		if bad && r.Intn(4) == 0 {
